@@ -343,5 +343,5 @@ def machines(ctx, backend, n, steps):
 
 
 def shards(tier, seed):
-    n, steps, k = (150, 60, 7) if tier == "quick" else (3000, 150, 8)
+    n, steps, k = (110, 60, 7) if tier == "quick" else (3000, 150, 8)
     return [{"name": "machine-%s-%d" % (b, i), "fn": "machines", "kw": {"backend": b, "n": n, "steps": steps}} for b in ("py", "c") for i in range(k)]
